@@ -42,6 +42,10 @@ type WCfg struct {
 	// Forward: the recording controller hands every In call on to a real pipeline (raw decoder, same size
 	// limit), which is allowed to write into the slice it is given - the worker's own buffers.
 	Forward bool `json:"forward_to_pipeline,omitempty"`
+	// Other: a second file in the same directory, read by the same workers in between: after appending chunk i of
+	// the main file, Other[i] (if any) is appended to it. Its own lines are not checked; it is there because the
+	// workers' buffers are reused from one file to the next
+	Other map[int]core.Bin `json:"other_file_appends,omitempty"`
 }
 
 func (c *WCfg) SimCfg() *simrt.Config { return &c.Sim }
@@ -123,6 +127,14 @@ func (h *HW) Gen(rng *rand.Rand, tier, prop string) core.Cfg {
 		}
 	}
 	c.Initial = rng.IntN(len(c.Chunks) + 1)
+	if core.Chance(rng, 0.3) {
+		c.Other = map[int]core.Bin{}
+		for i := range c.Chunks {
+			if core.Chance(rng, 0.5) {
+				c.Other[i] = core.Bin(core.Pick(rng, "zz", "zzzzzzzzzzzz\n", "q\nqq", "yyyyyyyyyyyyyyyyyyyyyyyyyyyyyyyyyyyy", "\n", "w\nwwwwwwwwwwwwwwwwwwwwww\nw"))
+			}
+		}
+	}
 	if core.Chance(rng, 0.25) && c.Initial > 0 {
 		c.ResumeAt = core.Between(rng, 1, 3)
 	}
@@ -218,6 +230,7 @@ func (h *HW) Run(cc core.Cfg, sim *simrt.Sim) *core.Outcome {
 	cfg := cc.(*WCfg)
 	o := &core.Outcome{NonTrivial: map[string]bool{}, Probes: map[string]int{}}
 	rec := &recCtl{}
+	var mainSID uint64
 	done := false
 	var full []byte
 	for _, ch := range cfg.Chunks {
@@ -265,6 +278,7 @@ func (h *HW) Run(cc core.Cfg, sim *simrt.Sim) *core.Outcome {
 			initial = append(initial, cfg.Chunks[i]...)
 		}
 		fs.WriteFileDirect(path, initial)
+		mainSID = file.VerifSourceID(fs.Ino(path))
 		if resume > 0 {
 			ino := fs.Ino(path)
 			// the source id is derived from the inode exactly as the plugin does it
@@ -311,6 +325,10 @@ func (h *HW) Run(cc core.Cfg, sim *simrt.Sim) *core.Outcome {
 				simrt.Point()
 			}
 			fs.AppendDirect(path, []byte(cfg.Chunks[i]))
+			if ob, ok := cfg.Other[i]; ok {
+				simrt.Point()
+				fs.AppendDirect("/data/logs/y-other.log", []byte(ob))
+			}
 		}
 		// everything readable must have been read by now + a few maintenance rounds
 		simrt.Sleep(5*cfg.MaintIvl + 2*time.Second)
@@ -351,6 +369,16 @@ func (h *HW) Run(cc core.Cfg, sim *simrt.Sim) *core.Outcome {
 			want = append(want, exp{data: l.data, end: l.end})
 		}
 		return want
+	}
+	// only the main file is checked: drop the calls of the other one
+	if len(cfg.Other) > 0 && mainSID != 0 {
+		var mine []inCall
+		for _, c := range rec.calls {
+			if uint64(c.src) == mainSID {
+				mine = append(mine, c)
+			}
+		}
+		rec.calls = mine
 	}
 	describe := func() string {
 		var sb strings.Builder
